@@ -22,6 +22,7 @@ MODULES = {
     "hist_c03": ("src/histogram.rs", K / "hist_c03.rs"),
     "hist_c02": ("src/histogram.rs", K / "hist_c02.rs"),
     "hist_c18": ("src/histogram.rs", K / "hist_c18.rs"),
+    "model_c16": ("src/lib.rs", K / "model_c16.rs"),
     "registry_c06": ("src/registry.rs", K / "registry_c06.rs"),
     "vec_c05": ("src/vec.rs", K / "vec_c05.rs"),
     "desc_c09": ("src/desc.rs", K / "desc_c09.rs"),
@@ -75,6 +76,8 @@ CONTRACTS = {
 
 
 def modpath(rel: str, modname: str) -> str:
+    if rel == "src/lib.rs":
+        return "__v_%s" % modname
     p = rel[len("src/"):-len(".rs")].replace("/", "::")
     if p.endswith("::mod"):
         p = p[: -len("::mod")]
@@ -178,6 +181,15 @@ PLAN = {
         verus=[],
         functions=[],
         assumptions=[MAPS_ASSUMPTION, FMT_ASSUMPTION, "collectors are harness structs with literal descriptors (ids and dimension hashes symbolic over all u64, names from {\"\", \"a\"}); that descriptor identity is structural (id/dim_hash are faithful hashes of name, const-label values, help and label names) is C15", "no accidental 64-bit collision between a collector id (wrapping sum of descriptor ids) and an unrelated registered collector id"],
+    ),
+    "C16": dict(
+        title="Exposition does not depend on the protobuf feature",
+        level="proof",
+        modules=["model_c16"],
+        scripts=["c16_closure.py"],
+        verus=[],
+        functions=[],
+        assumptions=["the argument is: (1) the accessor algebra (defaults, set/get, frame, take, from_*, LabelPair order) holds for BOTH data models -- the same harness text is compiled and proved under --no-default-features and under default features; (2) every model accessor called from feature-independent source is in that algebra (mechanical closure check tools/c16_closure.py); hence the same client code computes the same gather() structure and text bytes. Step (2)->conclusion is a paper argument (observational equivalence of two implementations of one abstract data type)", "derive(Debug) of MetricType (used for the `# TYPE` line through format!) prints the variant name in both models: assumed (std formatting is out of CBMC's reach here)", "the protobuf crate's MessageField / EnumOrUnknown wrappers are executed as compiled, not assumed"],
     ),
     "C08": dict(
         title="Bucket counts follow 'value <= upper bound' for every input",
